@@ -20,7 +20,10 @@ template<class History> struct Root_ : state_machine_def<Root_<History>> {
   template<class Ar> void serialize(Ar& ar, const unsigned int){ ar & front_data; }
   struct Idle : state<> { typedef int do_serialize; int idle_data = 0; template<class Ar> void serialize(Ar& ar, const unsigned int){ ar & idle_data; } };
   struct Work_ : state_machine_def<Work_> {
-    struct A1 : state<> {}; struct A2 : state<> {}; struct B1 : state<> {}; struct B2 : state<> {};
+    typedef int do_serialize; int work_data = 0;                 // front-end data of a CONTAINED machine
+    template<class Ar> void serialize(Ar& ar, const unsigned int){ ar & work_data; }
+    struct A1 : state<> {}; struct B1 : state<> {}; struct B2 : state<> {};
+    struct A2 : state<> { typedef int do_serialize; int a2_data = 0; template<class Ar> void serialize(Ar& ar, const unsigned int){ ar & a2_data; } };
     typedef mpl::vector<A1,B1> initial_state;
     struct transition_table : mpl::vector< Row<A1,nxt,A2>, Row<A2,nxt,A1>, Row<B1,stp,B2>, Row<B2,stp,B1> > {};
     template<class F,class Ev> void no_transition(Ev const&,F&,int){}
@@ -46,11 +49,16 @@ template<class History, class OA, class IA> static void run(const char* hn, cons
   typedef BE<Root_<History>> M;
   for (int k = 0; k <= 5; ++k) {
     M a; a.start(); a.front_data = 40 + k; a.template get_state<typename M::Idle&>().idle_data = 7 * k; drive(a, k);
+    typedef typename M::Work W; typedef typename W::A2 A2;
+    a.template get_state<W&>().work_data = 100 + k; a.template get_state<W&>().template get_state<A2&>().a2_data = 200 + k;
     std::stringstream ss; { OA oa(ss); oa << a; }
     M b; { IA ia(ss); ia >> b; }
     std::string id = std::string(hn) + "." + an + ".k" + std::to_string(k);
     bool same = conf(a) == conf(b) && b.front_data == a.front_data && b.template get_state<typename M::Idle&>().idle_data == 7 * k;
     report(id + ".configuration-and-data", same, "C16", "saved=" + conf(a) + " loaded=" + conf(b) + " front=" + std::to_string(b.front_data));
+    const int wd = b.template get_state<W&>().work_data, sd = b.template get_state<W&>().template get_state<A2&>().a2_data;
+    report(id + ".contained-machine-data", wd == 100 + k && sd == 200 + k, "C16", "submachine front-end data saved=" + std::to_string(100 + k) + " loaded=" + std::to_string(wd) +
+           "; substate data saved=" + std::to_string(200 + k) + " loaded=" + std::to_string(sd));
     // common continuation: leave (if inside), re-enter with the history event, move one region, leave, re-enter plainly
     std::string ta, tb;
     auto cont = [](M& m, std::string& t){ m.process_event(leave()); t += conf(m) + " "; m.process_event(enter_h()); t += conf(m) + " "; m.process_event(nxt()); t += conf(m) + " ";
